@@ -352,6 +352,17 @@ pub fn run(sc: &Scenario, opts: &RunOptions) -> RunRecord {
         super::core::heartbeat();
         let bound = 20_000 + 400 * frames.len() as u64 + 8 * (full_len as u64 + rx_bytes);
         if steps > bound {
+            if std::env::var("VERIF_TRACE_HANG").is_ok() {
+                eprintln!(
+                    "step bound: steps={steps} bound={bound} tasks={} runnable={:?} next_seg={next_seg}/{} stdin_pending={} stdout_avail={} responses_seen={responses_seen} tick={}",
+                    sim.task_count(),
+                    sim.runnable(),
+                    segs.len(),
+                    sim.stdin_pending(),
+                    sim.stdout_available(),
+                    sim.tick()
+                );
+            }
             hang = Some(Hang::StepBound { steps });
             break;
         }
@@ -550,9 +561,12 @@ pub fn run(sc: &Scenario, opts: &RunOptions) -> RunRecord {
                     _ => 5,
                 }
             };
-            let alive: u64 = (0..sim.task_count() as u16)
+            // the first eight tasks by identity, the others (one task per request or per piece of
+            // blocking work in some designs) by number, capped
+            let alive: u64 = (0..sim.task_count().min(8) as u16)
                 .map(|t| (sim.task_alive(t) as u64) << t)
-                .sum();
+                .sum::<u64>()
+                | ((8..sim.task_count() as u16).filter(|t| sim.task_alive(*t)).count().min(3) as u64) << 24;
             let fill = (sim.stdout_available() * 4 / sc.knobs.stdout_cap.max(1)).min(4) as u64;
             let backlog = match sim.stdin_pending() {
                 0 => 0u64,
